@@ -18,7 +18,9 @@ from ..core import Ctx, quiet
 from ..project import digest
 
 WORDS = ["LJ (SR)", "Disper. corr.", "Coulomb (SR)", "Potential", "Kinetic En.", "Total Energy", "Pres. DC (bar)",
-         "Temperature", "Coul. recip.", "Constr. rmsd", "Bond", "Angle", "s5 legend", "#hash", "a,b"]
+         "Temperature", "Coul. recip.", "Constr. rmsd", "Bond", "Angle", "s5 legend", "#hash", "a,b",
+         # whitespace inside a legend is part of its text: runs of blanks, a tab, blanks at the edges, a non-breaking space
+         "Coul-SR:  Protein-SOL", "LJ-14\tProtein", " padded ", "Pres.\u00a0DC", "x   y z", "@ s1 legend", "s0"]
 
 
 def xvg_cfg(maxleg, maxrows, bug="none", invs=("ReaderCorrectInEnvelope", "TooManyHashGivesGarbage", "ShortHeaderLosesRows")):
